@@ -165,6 +165,8 @@ pub struct World {
     pub hostile: Option<(Vec<usize>, u64, usize)>,
     history: Vec<u8>,
     hostile_after: usize,
+    /// rare long histories: hundreds of requests, so that ids / counters grow large
+    pub long_history: bool,
 }
 
 fn viol(ctx: &Ctx, class: &str, msg: String) -> Violation {
@@ -274,7 +276,7 @@ impl World {
         let kind = ctx.ch.weighted(
             "op.kind",
             &[
-                1,                                     // 0 end of script
+                if self.long_history { 0 } else { 1 }, // 0 end of script
                 if has_pending { 10 } else { 2 },      // 1 _result
                 2,                                     // 2 _error
                 4,                                     // 3 onStatus
@@ -545,7 +547,7 @@ impl World {
         let kind = ctx.ch.weighted(
             "op.kind",
             &[
-                w(st == CSt::Disconnected && self.model.pending.is_empty()),
+                w(st == CSt::Disconnected && (self.model.pending.is_empty() || (self.long_history && self.model.issued_tx.len() < 300))),
                 w(st == CSt::Connected && self.model.pending.is_empty()),
                 w(st == CSt::Connected && self.model.pending.is_empty()),
                 w(st == CSt::Publishing),
@@ -761,6 +763,7 @@ pub fn build(ctx: &mut Ctx, mode: FMode) -> Result<World, Violation> {
         hostile: None,
         history: Vec::new(),
         hostile_after: 0,
+        long_history: false,
     })
 }
 
@@ -768,11 +771,18 @@ pub fn run(ctx: &mut Ctx, mode: FMode) -> RunResult {
     ctx.world("F");
     ctx.step_cap = 30_000;
     let mut w = build(ctx, mode)?;
-    let max_msgs = match mode {
+    let mut max_msgs = match mode {
         FMode::C17 => 5 + ctx.ch.draw("op.count", 60) as usize,
         _ => 5 + ctx.ch.draw("op.count", if ctx.tier_thorough { 116 } else { 36 }) as usize,
     };
-    let max_app = if ctx.tier_thorough { 90 } else { 30 };
+    let mut max_app = if ctx.tier_thorough { 90 } else { 30 };
+    if mode == FMode::C10 && ctx.ch.chance("cfg.longhistory", 1, 60) {
+        // hundreds of requests on one connection: transaction ids pass 255
+        w.long_history = true;
+        max_msgs = 400 + ctx.ch.draw("op.count", 400) as usize;
+        max_app = 600;
+        ctx.probe("f.long_history");
+    }
     let mut jumps_left = if mode == FMode::C18 { 2 } else { 0 };
     loop {
         if w.cli.c.closed || !ctx.step() {
@@ -825,6 +835,9 @@ pub fn run(ctx: &mut Ctx, mode: FMode) -> RunResult {
         FMode::C10 => {
             if w.model_alive {
                 ctx.probe("f.model_followed_to_end");
+            }
+            if w.model.issued_tx.iter().any(|t| *t >= 256) {
+                ctx.probe("f.transaction_id_past_255");
             }
             match w.model.st {
                 CSt::Playing => ctx.probe("f.reached_playing"),
